@@ -9,6 +9,8 @@ def main(tier):
     run = PropertyRun('C12', tier, level='other')
     for cls in CLIENTS:
         run.add(I.ReceiveImplTask('C12', cls))
+        if cls == 'WaveShareNmea2000Gateway':
+            run.add(I.ReceiveImplTask('C12', cls, later_iteration=True))
     run.add(I.ProcessQueueTask('C12'))
     # every (re)connection starts the receive path from the new link alone: _connect_impl installs the new reader / writer and,
     # for the serial client, an empty reassembly buffer
